@@ -11,7 +11,7 @@ let routes =
     r "/panic*" Conn.HPanic Conn.cors_none;
     r "/own*" Conn.HOwn Conn.cors_none;
     r "/cors*" (Conn.HFixed (b "c"))
-      { Conn.c_origin = Some (b "https://a.example"); Conn.c_methods = Some (b "GET, POST"); Conn.c_headers = Some (b "x-h") } ]
+      { Conn.c_origin = Some (b "https://a.example, https://b.example"); Conn.c_methods = Some (b "GET, POST"); Conn.c_headers = Some (b "x-h, x-i") } ]
 
 let ending_name = function
   | Conn.EClosedByClient -> "client" | Conn.EStreamError -> "stream" | Conn.EBadRequest -> "400" | Conn.ETimeout -> "408"
